@@ -133,7 +133,7 @@ def conversation(sx, tech, brs, lri, lrt, did, nad, shapes, faults,
         I['gb'] = ini.activate(None, **opts)
         if I['gb'] is None:
             sx.check(False, "activation-failed:initiator")
-        air.faults_on = True
+        air.arm_faults(skip=1)      # the DEP_REQ that ends the target's listen()
         for k in range(n):
             try:
                 I['recv'].append(ini.exchange(A[k], EX_TIMEOUT))
@@ -151,8 +151,8 @@ def conversation(sx, tech, brs, lri, lrt, did, nad, shapes, faults,
     assert air.late == 0, "a target time-out became binding"
     if T['gb'] is None:
         sx.check(False, "activation-failed:target")
-    sx.check(same_bytes(sx, T['gb'], b"Ffm\x01\x01\x11") and
-             same_bytes(sx, I['gb'], b"Ffm\x01\x01\x11"),
+    sx.check(sx.all([same_bytes(sx, T['gb'], b"Ffm\x01\x01\x11"),
+                     same_bytes(sx, I['gb'], b"Ffm\x01\x01\x11")]),
              "activation:general-bytes-not-exchanged")
     cls, last = classify(air.frames)
     why = describe(last)
@@ -213,7 +213,7 @@ def conversation(sx, tech, brs, lri, lrt, did, nad, shapes, faults,
     if nad is not None:
         sx.reach("nad")
     return dict(cls=cls, i=I['end'] or "ok", t=T['end'], ni=len(I['recv']),
-                nt=len(T['recv']), air=" ".join(str(f) for f in air.frames[2:]))
+                nt=len(T['recv']), air=" ".join(str(f) for f in air.frames))
 
 
 def same_bytes(sx, a, b):
